@@ -95,6 +95,21 @@ def dump_graph(py4hw, objs, wires, ports, name_of):
     return [O, W, P]
 
 
+# fingerprint of a dump: the same fold as Model/BuildCheck.v fp_dump
+_P = 2305843009213693951
+def fp_dump(d):
+    h = 1
+    for part in d:
+        h = (h * 1000003 + len(part) + 7) % _P
+        for e in part:
+            h = (h * 1000003 + len(e) + 7) % _P
+            for row in e:
+                h = (h * 1000003 + len(row) + 7) % _P
+                for x in row:
+                    h = (h * 1000003 + x + 7) % _P
+    return h
+
+
 # ---------------------------------------------------------------- Coq syntax
 def zl(xs): return '[' + '; '.join(common.zlit(x) for x in xs) + ']'
 def dump_term(d):
@@ -208,6 +223,26 @@ DIRECTED = {
     'two_roots': [('NewLogic', None, 0, False), ('NewLogic', None, 0, True), ('NewWire', 0, 0, 1), ('NewWire', 1, 0, 1), ('AddOut', 1, 0, 0),
                   ('AddOut', 1, 0, 1), ('AddOut', 1, 0, 0), ('Reparent', 0, 1), ('ReparentAndRename', 0, 1, 1)],
 }
+
+
+# exhaustive small sweep: every PAIR of calls from a fixed alphabet, in two contexts
+PAIR_SETUP = [('NewLogic', None, 0, False), ('NewLogic', 0, 1, True), ('NewLogic', 0, 2, True), ('NewLogic', 0, 3, False),
+              ('NewWire', 0, 0, 1), ('NewWire', 0, 1, 1)]
+PAIR_CONTEXTS = {'clean': PAIR_SETUP,
+                 'driven': PAIR_SETUP + [('AddOut', 1, 0, 0), ('AddIn', 2, 0, 0)],
+                 'after_failed_rename': PAIR_SETUP + [('Rename', 0, 1)]}          # wire 0 is now in no table and is named like wire 1
+def pair_alphabet():
+    A = []
+    for o in (1, 2, 3):
+        for w in (0, 1):
+            A += [('AddIn', o, 0, w), ('AddOut', o, 0, w), ('AddInOut', o, 0, w)]
+    for w in (0, 1):
+        A += [('Rename', w, n) for n in (0, 1, 2)]
+        A += [('Reparent', w, p) for p in (0, 3)]
+        A += [('ReparentAndRename', w, p, n) for p in (0, 3) for n in (0, 1)]
+    A += [('NewWire', p, n, 1) for p in (0, 3) for n in (0, 1)]
+    A += [('NewLogic', p, n, prim) for p in (0, 3) for n in (1, 4) for prim in (False, True)]
+    return A
 
 
 # ---------------------------------------------------------------- real hierarchies (library blocks)
